@@ -212,6 +212,8 @@ def run(tier, seed, replay):
                 ops.add(s)
         if (o.get("params") or {}).get("kind") == "solver":
             ops.add("setup+solve")
+        if (o.get("params") or {}).get("kind") == "ensemble":
+            ops.add("2-4 independent one-thread solver objects driven concurrently by application threads")
         if (o.get("params") or {}).get("kind") == "input-functions":
             ops.add("all shipped input-function classes evaluated concurrently on shared objects")
     verdict.extra["workloads_run_under_tsan"] = sorted(ops)
@@ -261,7 +263,7 @@ class _Mod:
 RULE = ("one process per case: a racy canary region (must be reported), then either the operator workload (residual, smoother, "
         "extrapolated smoother, direct-solver assembly and solve, level caches incl. coarse, all ten transfer operators, vector kernels "
         "and Vector copies above the threshold; give with two cache modes and take) on a grid of a random shape class (circles 2..9 / "
-        "20..40, ntheta in {4,...,64,128}: circles mod 2,3,4 and ntheta mod 3,4) or setup()+solve() of a random configuration, with "
+        "20..40, ntheta in {4,...,64,128}: circles mod 2,3,4 and ntheta mod 3,4) or setup()+solve() of a random configuration (5%: an ensemble of 2-4 independent one-thread solver objects driven concurrently by application threads), with "
         "T drawn from {2,3,4,5,7,8,16,17,33,64} threads (33/64 exceed every loop's trip count on the small grids); signature = "
         "(workload, shape class / configuration class, T); every case counts as non-trivial; the evidence lists the parallel regions "
         "and team sizes the OMPT trace saw for the same workload")
